@@ -96,6 +96,12 @@ impl<'a> Oracle<'a> {
             "C09" => self.c09(&toks),
             "C11" => self.c11(&toks),
             "C10" => self.c10(&toks),
+            "C01" => self.c01(&toks),
+            "C02" => self.c02(&toks),
+            "C03" => self.c03(&toks),
+            "C12" => self.c12(&toks),
+            "C14" => self.c14(&toks),
+            "C15" => self.c15(&toks),
             "C04" => self.c04(&toks),
             "C05" => self.c05(&toks),
             "C19" => self.c19(&toks),
@@ -796,6 +802,519 @@ impl<'a> Oracle<'a> {
                     Ok(evs) => self.check_build(&evs, &format!("accepted string {:?}", s)),
                     Err(_) => "SKIP".to_string(),
                 }
+            }
+            _ => "SKIP".to_string(),
+        }
+    }
+}
+
+// ------------------------------------------------------------------------------------------
+// round-trip machinery shared by C01 / C03 / C12 / C14
+
+/// canonical kind with the configuration blanked and H0 = absent (what C01's correspondence preserves)
+fn constitution_kind(k: &str) -> String {
+    if k.starts_with('[') {
+        let inner = &k[1..k.len() - 1];
+        let mut f: Vec<String> = inner.split(',').map(|x| x.to_string()).collect();
+        if f.len() == 6 {
+            f[2] = "_".to_string();
+            if f[3] == "0" { f[3] = "_".to_string() }
+            return format!("[{}]", f.join(","));
+        }
+    }
+    k.to_string()
+}
+
+fn config_of(k: &str) -> Option<usize> {
+    if k.starts_with('[') {
+        let f: Vec<&str> = k[1..k.len() - 1].split(',').collect();
+        if f.len() == 6 && f[2] != "_" { return f[2].parse().ok() }
+    }
+    None
+}
+
+fn hcount_of(k: &str) -> usize {
+    if k.starts_with('[') {
+        let f: Vec<&str> = k[1..k.len() - 1].split(',').collect();
+        if f.len() == 6 && f[3] != "_" { return f[3].parse().unwrap_or(0) }
+    }
+    0
+}
+
+/// traversal order from the property text of C12: components start at the lowest-numbered unvisited
+/// atom, children are visited in list order (depth first); returns (order, parent of each atom)
+fn dfs_order(g: &[purr::graph::Atom]) -> (Vec<usize>, Vec<Option<usize>>) {
+    let n = g.len();
+    let mut seen = vec![false; n];
+    let mut parent: Vec<Option<usize>> = vec![None; n];
+    let mut order = Vec::new();
+    for root in 0..n {
+        if seen[root] { continue }
+        // explicit stack of (atom, next bond index)
+        seen[root] = true; order.push(root);
+        let mut stack: Vec<(usize, usize)> = vec![(root, 0)];
+        while let Some((a, i)) = stack.pop() {
+            if i >= g[a].bonds.len() { continue }
+            stack.push((a, i + 1));
+            let t = g[a].bonds[i].tid;
+            if t < n && !seen[t] { seen[t] = true; parent[t] = Some(a); order.push(t); stack.push((t, 0)) }
+        }
+    }
+    (order, parent)
+}
+
+pub struct RoundTrip {
+    pub text: String,
+    pub g2: Vec<purr::graph::Atom>,
+}
+
+impl<'a> Oracle<'a> {
+    /// walk -> write -> read -> build on the real code
+    fn round_trip(&self, g: Vec<purr::graph::Atom>) -> Result<RoundTrip, String> {
+        let mut w = purr::write::Writer::new();
+        match catch_unwind(AssertUnwindSafe(|| purr::walk::walk(g, &mut w))) {
+            Ok(Ok(())) => {}
+            Ok(Err(e)) => return Err(format!("walk refuses the graph: {:?}", e)),
+            Err(_) => return Err(format!("PANIC {}", imp::last_panic())),
+        }
+        let text = w.write();
+        let mut b = purr::graph::Builder::new();
+        match catch_unwind(AssertUnwindSafe(|| read(&text, &mut b, None))) {
+            Ok(Ok(())) => {}
+            Ok(Err(e)) => return Err(format!("written text {:?} is refused by the reader: {:?}", text, e)),
+            Err(_) => return Err(format!("reading the written text {:?} panics at {}", text, imp::last_panic())),
+        }
+        match b.build() {
+            Ok(g2) => Ok(RoundTrip { text, g2 }),
+            Err(e) => Err(format!("written text {:?} does not build: {:?}", text, e)),
+        }
+    }
+
+    /// is `pi` (original id -> new id) an isomorphism in the sense of C01?
+    fn iso_under(&self, g: &[purr::graph::Atom], g2: &[purr::graph::Atom], pi: &[usize]) -> Result<(), String> {
+        let t = self.t;
+        if g.len() != g2.len() { return Err(format!("{} atoms became {}", g.len(), g2.len())) }
+        for a in 0..g.len() {
+            let k1 = constitution_kind(&kind_s(t, &g[a].kind));
+            let k2 = constitution_kind(&kind_s(t, &g2[pi[a]].kind));
+            if k1 != k2 { return Err(format!("atom {} ({}) became {}", a, k1, k2)) }
+            let mut b1: Vec<(usize, String)> = g[a].bonds.iter().map(|b| (pi[b.tid], bond_s(t, &b.kind))).collect();
+            let mut b2: Vec<(usize, String)> = g2[pi[a]].bonds.iter().map(|b| (b.tid, bond_s(t, &b.kind))).collect();
+            b1.sort(); b2.sort();
+            if b1 != b2 { return Err(format!("the bonds of atom {} changed: {:?} became {:?} (targets in new numbering)", a, b1, b2)) }
+        }
+        Ok(())
+    }
+
+    /// bounded backtracking search for any isomorphism (used when the traversal-order candidate fails)
+    fn iso_search(&self, g: &[purr::graph::Atom], g2: &[purr::graph::Atom]) -> Option<bool> {
+        let t = self.t;
+        let n = g.len();
+        if n != g2.len() { return Some(false) }
+        let sig = |a: &purr::graph::Atom| -> (String, usize) { (constitution_kind(&kind_s(t, &a.kind)), a.bonds.len()) };
+        let s1: Vec<(String, usize)> = g.iter().map(sig).collect();
+        let s2: Vec<(String, usize)> = g2.iter().map(sig).collect();
+        let mut pi: Vec<Option<usize>> = vec![None; n];
+        let mut used = vec![false; n];
+        let mut steps = 0usize;
+        fn consistent(t: &Tables, g: &[purr::graph::Atom], g2: &[purr::graph::Atom], pi: &[Option<usize>], a: usize) -> bool {
+            let pa = pi[a].unwrap();
+            for b in g[a].bonds.iter() {
+                if let Some(pt) = pi[b.tid] {
+                    if !g2[pa].bonds.iter().any(|c| c.tid == pt && bond_s(t, &c.kind) == bond_s(t, &b.kind)) { return false }
+                }
+            }
+            true
+        }
+        fn rec(t: &Tables, g: &[purr::graph::Atom], g2: &[purr::graph::Atom], s1: &[(String, usize)], s2: &[(String, usize)],
+               pi: &mut Vec<Option<usize>>, used: &mut Vec<bool>, a: usize, steps: &mut usize) -> Option<bool> {
+            if a == g.len() { return Some(true) }
+            for c in 0..g.len() {
+                if used[c] || s1[a] != s2[c] { continue }
+                *steps += 1;
+                if *steps > 200000 { return None }
+                pi[a] = Some(c); used[c] = true;
+                if consistent(t, g, g2, pi, a) {
+                    match rec(t, g, g2, s1, s2, pi, used, a + 1, steps) { Some(true) => return Some(true), None => return None, _ => {} }
+                }
+                pi[a] = None; used[c] = false;
+            }
+            Some(false)
+        }
+        rec(t, g, g2, &s1, &s2, &mut pi, &mut used, 0, &mut steps)
+    }
+
+    // ---------------- C01: round trip preserves the constitution ----------------
+    fn c01_graph(&self, g: Vec<purr::graph::Atom>, what: &str) -> String {
+        if g.is_empty() {
+            // the empty adjacency list is well-formed
+            return match self.round_trip(g) {
+                Ok(_) => "OK".to_string(),
+                Err(m) => fail(format!("the empty adjacency list: {}", m)),
+            }
+        }
+        if graph_defect(&g).is_some() { return "SKIP".to_string() }
+        let (order, _) = dfs_order(&g);
+        let copy: Vec<purr::graph::Atom> = g.iter().map(|a| purr::graph::Atom { kind: parse_kind(&kind_s(self.t, &a.kind)).unwrap(), bonds: a.bonds.iter().map(|b| Bond::new(b.kind.clone(), b.tid)).collect() }).collect();
+        let rt = match self.round_trip(copy) {
+            Ok(rt) => rt,
+            Err(m) => { if m.starts_with("PANIC") && m.contains("join_pool") { return "SKIP".to_string() } return fail(format!("{}: {}", what, m)) }
+        };
+        let mut pi = vec![0usize; g.len()];
+        for (i, a) in order.iter().enumerate() { pi[*a] = i }
+        match self.iso_under(&g, &rt.g2, &pi) {
+            Ok(()) => "OK".to_string(),
+            Err(m) => match self.iso_search(&g, &rt.g2) {
+                Some(true) => "OK".to_string(), // same molecule, different atom order: C12's concern, not C01's
+                Some(false) => fail(format!("{}: written as {:?}, which builds a different molecule: {}", what, rt.text, m)),
+                None => "SKIP".to_string(),
+            },
+        }
+    }
+
+    fn c01(&mut self, toks: &[&str]) -> String {
+        match toks {
+            ["WALK", rest @ ..] => match parse_graph(rest) { Some(g) => self.c01_graph(g, "adjacency list"), None => "SKIP".to_string() },
+            ["READ", h] => {
+                let s = match unhex(h) { Some(s) => s, None => return "SKIP".to_string() };
+                let mut b = purr::graph::Builder::new();
+                match catch_unwind(AssertUnwindSafe(|| read(&s, &mut b, None))) {
+                    Ok(Ok(())) => match b.build() { Ok(g) => self.c01_graph(g, &format!("graph of {:?}", s)), Err(_) => "SKIP".to_string() },
+                    _ => "SKIP".to_string(),
+                }
+            }
+            _ => "SKIP".to_string(),
+        }
+    }
+
+    // ---------------- C12: writing preserves every atom's substituent order ----------------
+    fn c12_graph(&self, g: Vec<purr::graph::Atom>, what: &str) -> String {
+        let t = self.t;
+        if g.is_empty() || graph_defect(&g).is_some() { return "SKIP".to_string() }
+        let (order, parent) = dfs_order(&g);
+        let copy: Vec<purr::graph::Atom> = g.iter().map(|a| purr::graph::Atom { kind: parse_kind(&kind_s(t, &a.kind)).unwrap(), bonds: a.bonds.iter().map(|b| Bond::new(b.kind.clone(), b.tid)).collect() }).collect();
+        let rt = match self.round_trip(copy) { Ok(rt) => rt, Err(m) => { if m.starts_with("PANIC") && m.contains("join_pool") { return "SKIP".to_string() } return fail(format!("{}: {}", what, m)) } };
+        if rt.g2.len() != g.len() { return fail(format!("{}: {} atoms became {}", what, g.len(), rt.g2.len())) }
+        let mut pi = vec![0usize; g.len()];
+        for (i, a) in order.iter().enumerate() { pi[*a] = i }
+        for a in 0..g.len() {
+            let mut want: Vec<(String, usize)> = Vec::new();
+            if let Some(p) = parent[a] { for b in g[a].bonds.iter() { if b.tid == p { want.push((bond_s(t, &b.kind), pi[p])) } } }
+            for b in g[a].bonds.iter() { if Some(b.tid) != parent[a] { want.push((bond_s(t, &b.kind), pi[b.tid])) } }
+            let got: Vec<(String, usize)> = rt.g2[pi[a]].bonds.iter().map(|b| (bond_s(t, &b.kind), b.tid)).collect();
+            if got != want {
+                return fail(format!("{}: written as {:?}; atom {} (re-read as atom {}) has bond list {:?}, expected the original with the arrival bond first: {:?}", what, rt.text, a, pi[a], got, want))
+            }
+        }
+        "OK".to_string()
+    }
+
+    fn c12(&mut self, toks: &[&str]) -> String {
+        match toks {
+            ["WALK", rest @ ..] => match parse_graph(rest) { Some(g) => self.c12_graph(g, "adjacency list"), None => "SKIP".to_string() },
+            ["READ", h] => {
+                let s = match unhex(h) { Some(s) => s, None => return "SKIP".to_string() };
+                let mut b = purr::graph::Builder::new();
+                match catch_unwind(AssertUnwindSafe(|| read(&s, &mut b, None))) {
+                    Ok(Ok(())) => match b.build() { Ok(g) => self.c12_graph(g, &format!("graph of {:?}", s)), Err(_) => "SKIP".to_string() },
+                    _ => "SKIP".to_string(),
+                }
+            }
+            _ => "SKIP".to_string(),
+        }
+    }
+
+    // ---------------- C03: round trip preserves stereochemistry ----------------
+    fn c03_graph(&self, g: Vec<purr::graph::Atom>, what: &str) -> String {
+        let t = self.t;
+        if g.is_empty() || graph_defect(&g).is_some() { return "SKIP".to_string() }
+        let (order, _) = dfs_order(&g);
+        let copy: Vec<purr::graph::Atom> = g.iter().map(|a| purr::graph::Atom { kind: parse_kind(&kind_s(t, &a.kind)).unwrap(), bonds: a.bonds.iter().map(|b| Bond::new(b.kind.clone(), b.tid)).collect() }).collect();
+        let rt = match self.round_trip(copy) { Ok(rt) => rt, Err(m) => { if m.starts_with("PANIC") && m.contains("join_pool") { return "SKIP".to_string() } return fail(format!("{}: {}", what, m)) } };
+        if rt.g2.len() != g.len() { return "SKIP".to_string() } // C01's concern
+        let mut pi = vec![0usize; g.len()];
+        for (i, a) in order.iter().enumerate() { pi[*a] = i }
+        let mut inv = vec![0usize; g.len()];
+        for a in 0..g.len() { inv[pi[a]] = a }
+        if self.iso_under(&g, &rt.g2, &pi).is_err() { return "SKIP".to_string() } // not the traversal-order bijection: C01 / C12 decide
+        const H: usize = usize::MAX;
+        for a in 0..g.len() {
+            let k1 = kind_s(t, &g[a].kind);
+            let k2 = kind_s(t, &rt.g2[pi[a]].kind);
+            let (c1, c2) = (config_of(&k1), config_of(&k2));
+            if c1.is_none() { if c2.is_some() { return fail(format!("{}: atom {} gained a configuration", what, a)) } continue }
+            // neighbour orders, implicit hydrogen first (graph convention), in original ids
+            let mut o1: Vec<usize> = Vec::new();
+            if hcount_of(&k1) >= 1 { o1.push(H) }
+            for b in g[a].bonds.iter() { o1.push(b.tid) }
+            let mut o2: Vec<usize> = Vec::new();
+            if hcount_of(&k2) >= 1 { o2.push(H) }
+            for b in rt.g2[pi[a]].bonds.iter() { o2.push(inv[b.tid]) }
+            // parity of the permutation taking o1 to o2
+            let mut perm: Vec<usize> = Vec::new();
+            for x in o2.iter() { match o1.iter().position(|y| y == x) { Some(p) => perm.push(p), None => return "SKIP".to_string() } }
+            let mut inversions = 0;
+            for i in 0..perm.len() { for j in i + 1..perm.len() { if perm[i] > perm[j] { inversions += 1 } } }
+            let odd = inversions % 2 == 1;
+            let c1 = c1.unwrap();
+            let flip = |c: usize| match c { 55 => 56, 56 => 55, 0 => 1, 1 => 0, x => x };
+            let norm = |c: usize| match c { 0 => 55, 1 => 56, x => x }; // AL1/AL2 are written @ / @@ and read back as TH
+            let is_mark = c1 == 55 || c1 == 56 || c1 == 0 || c1 == 1;
+            if is_mark {
+                let want = norm(if odd { flip(c1) } else { c1 });
+                if c2 != Some(want) {
+                    return fail(format!("{}: written as {:?}; centre {} has neighbour order {:?} and mark #{}, re-read order {:?} ({} permutation) with mark {:?}, expected #{}",
+                        what, rt.text, a, o1, c1, o2, if odd { "odd" } else { "even" }, c2, want))
+                }
+            } else if o1 == o2 && c2 != Some(c1) {
+                return fail(format!("{}: configuration #{} of atom {} became {:?} although its neighbour order is unchanged", what, c1, a, c2))
+            }
+        }
+        "OK".to_string()
+    }
+
+    fn c03(&mut self, toks: &[&str]) -> String {
+        match toks {
+            ["WALK", rest @ ..] => match parse_graph(rest) { Some(g) => self.c03_graph(g, "adjacency list"), None => "SKIP".to_string() },
+            ["READ", h] => {
+                let s = match unhex(h) { Some(s) => s, None => return "SKIP".to_string() };
+                let mut b = purr::graph::Builder::new();
+                match catch_unwind(AssertUnwindSafe(|| read(&s, &mut b, None))) {
+                    Ok(Ok(())) => match b.build() { Ok(g) => self.c03_graph(g, &format!("graph of {:?}", s)), Err(_) => "SKIP".to_string() },
+                    _ => "SKIP".to_string(),
+                }
+            }
+            _ => "SKIP".to_string(),
+        }
+    }
+
+    // ---------------- C14: written output is a deterministic fixed point ----------------
+    fn c14_graph(&self, mk: &dyn Fn() -> Vec<purr::graph::Atom>, what: &str) -> String {
+        let g = mk();
+        if g.is_empty() || graph_defect(&g).is_some() { return "SKIP".to_string() }
+        let rt = match self.round_trip(g) { Ok(rt) => rt, Err(m) => { if m.starts_with("PANIC") && m.contains("join_pool") { return "SKIP".to_string() } return fail(format!("{}: {}", what, m)) } };
+        // determinism: the same adjacency list written again, in this thread and in fresh threads
+        for round in 0..3 {
+            let g = mk();
+            let text = if round == 0 {
+                let mut w = purr::write::Writer::new();
+                let _ = purr::walk::walk(g, &mut w);
+                w.write()
+            } else {
+                std::thread::spawn(move || { let mut w = purr::write::Writer::new(); let _ = purr::walk::walk(g, &mut w); w.write() }).join().unwrap_or_default()
+            };
+            if text != rt.text { return fail(format!("{}: written as {:?} and as {:?} in another run", what, rt.text, text)) }
+        }
+        // fixed point: reading the output and writing the result again reproduces it
+        let rt2 = match self.round_trip(rt.g2) { Ok(x) => x, Err(m) => return fail(format!("{}: the re-read graph of {:?}: {}", what, rt.text, m)) };
+        if rt2.text != rt.text { return fail(format!("{}: written as {:?}; reading that and writing again gives {:?}", what, rt.text, rt2.text)) }
+        "OK".to_string()
+    }
+
+    fn c14(&mut self, toks: &[&str]) -> String {
+        match toks {
+            ["WALK", rest @ ..] => {
+                let owned: Vec<String> = rest.iter().map(|x| x.to_string()).collect();
+                if parse_graph(rest).is_none() { return "SKIP".to_string() }
+                let mk = move || { let v: Vec<&str> = owned.iter().map(|x| x.as_str()).collect(); parse_graph(&v).unwrap() };
+                self.c14_graph(&mk, "adjacency list")
+            }
+            ["READ", h] => {
+                let s = match unhex(h) { Some(s) => s, None => return "SKIP".to_string() };
+                let s2 = s.clone();
+                let mk = move || -> Vec<purr::graph::Atom> {
+                    let mut b = purr::graph::Builder::new();
+                    match catch_unwind(AssertUnwindSafe(|| read(&s2, &mut b, None))) { Ok(Ok(())) => b.build().unwrap_or_default(), _ => Vec::new() }
+                };
+                self.c14_graph(&mk, &format!("graph of {:?}", s))
+            }
+            _ => "SKIP".to_string(),
+        }
+    }
+}
+
+// ------------------------------------------------------------------------------------------
+// C02: an independent interpreter of (accepted) SMILES strings, written from the property text
+
+#[derive(Debug, Clone)]
+enum Tok { Atom(usize, usize), Bond(usize, usize), Rnum(usize, usize, usize), Open, Close, Dot }
+
+/// tokenise an accepted string (positions are character indices)
+fn tokenise(chars: &[char]) -> Option<Vec<Tok>> {
+    let mut out = Vec::new();
+    let mut i = 0;
+    while i < chars.len() {
+        let c = chars[i];
+        match c {
+            '(' => { out.push(Tok::Open); i += 1 }
+            ')' => { out.push(Tok::Close); i += 1 }
+            '.' => { out.push(Tok::Dot); i += 1 }
+            '-' => { out.push(Tok::Bond(1, i)); i += 1 }
+            '=' => { out.push(Tok::Bond(2, i)); i += 1 }
+            '#' => { out.push(Tok::Bond(3, i)); i += 1 }
+            '$' => { out.push(Tok::Bond(4, i)); i += 1 }
+            ':' => { out.push(Tok::Bond(5, i)); i += 1 }
+            '/' => { out.push(Tok::Bond(6, i)); i += 1 }
+            '\\' => { out.push(Tok::Bond(7, i)); i += 1 }
+            '0'..='9' => { out.push(Tok::Rnum(c.to_digit(10).unwrap() as usize, i, i + 1)); i += 1 }
+            '%' => {
+                let d1 = chars.get(i + 1)?.to_digit(10)? as usize; let d2 = chars.get(i + 2)?.to_digit(10)? as usize;
+                out.push(Tok::Rnum(10 * d1 + d2, i, i + 3)); i += 3
+            }
+            '[' => { let mut j = i; while j < chars.len() && chars[j] != ']' { j += 1 } if j >= chars.len() { return None } out.push(Tok::Atom(i, j + 1)); i = j + 1 }
+            'C' if chars.get(i + 1) == Some(&'l') => { out.push(Tok::Atom(i, i + 2)); i += 2 }
+            'B' if chars.get(i + 1) == Some(&'r') => { out.push(Tok::Atom(i, i + 2)); i += 2 }
+            'A' | 'T' => { out.push(Tok::Atom(i, i + 2)); i += 2 }
+            _ => { out.push(Tok::Atom(i, i + 1)); i += 1 }
+        }
+    }
+    Some(out)
+}
+
+struct RefAtom { kind: String, bonds: Vec<(usize, usize)>, span: (usize, usize), pending: Vec<(usize, usize)> } // pending: (slot in bonds, rnum)
+
+/// the graph a token sequence denotes: Ok(atoms, rnum spans, bond cursors) or Err(()) when a ring digit is
+/// unmatched / irreconcilable / self / duplicate (the builder's own error cases, C10)
+#[allow(clippy::type_complexity)]
+fn denote(t: &Tables, chars: &[char], toks: &[Tok]) -> Option<Result<(Vec<RefAtom>, Vec<(usize, usize)>, Vec<((usize, usize), usize)>), ()>> {
+    let rev = |k: usize| match k { 6 => 7, 7 => 6, x => x };
+    let mut atoms: Vec<RefAtom> = Vec::new();
+    let mut rnums: Vec<(usize, usize)> = Vec::new();
+    let mut bond_cursors: Vec<((usize, usize), usize)> = Vec::new();
+    let mut open: Vec<(usize, usize, usize, usize, usize)> = Vec::new(); // rnum, atom, slot, kind, bond cursor
+    let mut prev: Option<usize> = None;          // atom the next token attaches to
+    let mut stack: Vec<Option<usize>> = Vec::new();
+    let mut bond: Option<(usize, usize)> = None; // pending explicit bond (kind, cursor)
+    let mut dot = true;                          // the next atom starts a new component
+    let mut bad = false;
+    for tk in toks {
+        match tk {
+            Tok::Open => { stack.push(prev) }
+            Tok::Close => { prev = stack.pop()?; }
+            Tok::Dot => { dot = true }
+            Tok::Bond(k, p) => { bond = Some((*k, *p)) }
+            Tok::Atom(a, b) => {
+                let text: String = chars[*a..*b].iter().collect();
+                // the atom's own attributes: read the token alone
+                let evs = read_events(t, &text).ok()?;
+                let mut kind = match evs.as_slice() { [Ev::Root(k)] => k.clone(), _ => return None };
+                let id = atoms.len();
+                let mut bonds = Vec::new();
+                if !dot {
+                    let p = prev?;
+                    let (k, cur) = match bond { Some((k, c)) => (k, c), None => (0, *a) };
+                    atoms[p].bonds.push((k, id));
+                    bonds.push((rev(k), p));
+                    bond_cursors.push(((p, id), cur)); bond_cursors.push(((id, p), cur));
+                    // convention of C03: a non-root atom with a hydrogen has its @ / @@ mark adjusted
+                    if hcount_of(&kind) >= 1 {
+                        if let Some(c) = config_of(&kind) {
+                            let f = match c { 55 => 56, 56 => 55, 0 => 1, 1 => 0, x => x };
+                            let mut fs: Vec<String> = kind[1..kind.len() - 1].split(',').map(|x| x.to_string()).collect();
+                            fs[2] = f.to_string();
+                            kind = format!("[{}]", fs.join(","));
+                        }
+                    }
+                }
+                atoms.push(RefAtom { kind, bonds, span: (*a, *b), pending: Vec::new() });
+                prev = Some(id); dot = false; bond = None;
+            }
+            Tok::Rnum(n, a, b) => {
+                let me = prev?;
+                let (k, cur) = match bond { Some((k, c)) => (k, c), None => (0, *a) };
+                rnums.push((*a, *b));
+                if let Some(j) = open.iter().position(|x| x.0 == *n) {
+                    let (_, other, slot, k0, cur0) = open.remove(j);
+                    let (ka, kb) = if k0 == 0 { (rev(k), k) } else if k == 0 { (k0, rev(k0)) } else if k0 == rev(k) { (k0, k) } else { bad = true; (0, 0) };
+                    if other == me || atoms[me].bonds.iter().any(|x| x.1 == other && x.1 != usize::MAX) || atoms[other].bonds.iter().any(|x| x.1 == me) { bad = true }
+                    if !bad {
+                        atoms[other].bonds[slot] = (ka, me);
+                        atoms[other].pending.retain(|x| x.0 != slot);
+                        atoms[me].bonds.push((kb, other));
+                        bond_cursors.push(((me, other), cur)); bond_cursors.push(((other, me), cur0));
+                    }
+                } else {
+                    let slot = atoms[me].bonds.len();
+                    atoms[me].bonds.push((k, usize::MAX));
+                    atoms[me].pending.push((slot, *n));
+                    open.push((*n, me, slot, k, cur));
+                }
+                bond = None;
+            }
+        }
+    }
+    if bad || !open.is_empty() { return Some(Err(())) }
+    Some(Ok((atoms, rnums, bond_cursors)))
+}
+
+impl<'a> Oracle<'a> {
+    // ---------------- C02: reading builds exactly the graph the string denotes ----------------
+    fn c02(&mut self, toks: &[&str]) -> String {
+        let t = self.t;
+        match toks {
+            ["READ", h] => {
+                let s = match unhex(h) { Some(s) => s, None => return "SKIP".to_string() };
+                if read_events(t, &s).is_err() { return "SKIP".to_string() }
+                let chars: Vec<char> = s.chars().collect();
+                let tks = match tokenise(&chars) { Some(x) => x, None => return "SKIP".to_string() };
+                let den = match denote(t, &chars, &tks) { Some(x) => x, None => return "SKIP".to_string() };
+                let mut b = purr::graph::Builder::new();
+                let _ = read(&s, &mut b, None);
+                match (b.build(), den) {
+                    (Ok(g), Ok((atoms, _, _))) => {
+                        if g.len() != atoms.len() { return fail(format!("{:?}: {} atom tokens, {} atoms built", s, atoms.len(), g.len())) }
+                        for (i, a) in g.iter().enumerate() {
+                            let k = kind_s(t, &a.kind);
+                            if k != atoms[i].kind { return fail(format!("{:?}: atom {} is built as {}, the token {:?} denotes {}", s, i, k, chars[atoms[i].span.0..atoms[i].span.1].iter().collect::<String>(), atoms[i].kind)) }
+                            let got: Vec<(usize, usize)> = a.bonds.iter().map(|x| (bond_s(t, &x.kind).parse().unwrap(), x.tid)).collect();
+                            if got != atoms[i].bonds { return fail(format!("{:?}: atom {} has bond list {:?} (kind, target), the string denotes {:?}", s, i, got, atoms[i].bonds)) }
+                        }
+                        "OK".to_string()
+                    }
+                    (Err(_), Err(())) => "OK".to_string(),
+                    (Ok(_), Err(())) => fail(format!("{:?}: builds although a ring-closure digit is unmatched, irreconcilable, a self bond or a duplicate", s)),
+                    (Err(e), Ok(_)) => fail(format!("{:?}: denotes a graph but build fails with {:?}", s, e)),
+                }
+            }
+            _ => "SKIP".to_string(),
+        }
+    }
+
+    // ---------------- C15: the trace maps every atom, bond and ring digit to its cursor ----------------
+    fn c15(&mut self, toks: &[&str]) -> String {
+        let t = self.t;
+        match toks {
+            ["READ", h] => {
+                let s = match unhex(h) { Some(s) => s, None => return "SKIP".to_string() };
+                if read_events(t, &s).is_err() { return "SKIP".to_string() }
+                let chars: Vec<char> = s.chars().collect();
+                let tks = match tokenise(&chars) { Some(x) => x, None => return "SKIP".to_string() };
+                let den = match denote(t, &chars, &tks) { Some(x) => x, None => return "SKIP".to_string() };
+                let mut b = purr::graph::Builder::new();
+                let mut trace = purr::read::Trace::new();
+                if catch_unwind(AssertUnwindSafe(|| read(&s, &mut b, Some(&mut trace)))).is_err() { return fail(format!("{:?}: reading with a trace panics", s)) }
+                // atoms and ring digits: from the tokens alone
+                let atom_spans: Vec<(usize, usize)> = tks.iter().filter_map(|x| if let Tok::Atom(a, b) = x { Some((*a, *b)) } else { None }).collect();
+                let rnum_spans: Vec<(usize, usize)> = tks.iter().filter_map(|x| if let Tok::Rnum(_, a, b) = x { Some((*a, *b)) } else { None }).collect();
+                for (i, sp) in atom_spans.iter().enumerate() {
+                    match trace.atom(i) { Some(r) if (r.start, r.end) == *sp => {}, other => return fail(format!("{:?}: atom {} is the token at {:?}, the trace says {:?}", s, i, sp, other)) }
+                }
+                for i in atom_spans.len()..atom_spans.len() + 3 { if trace.atom(i).is_some() { return fail(format!("{:?}: the trace maps the non-existent atom {} to {:?}", s, i, trace.atom(i))) } }
+                for (k, sp) in rnum_spans.iter().enumerate() {
+                    match trace.rnum(k) { Some(r) if (r.start, r.end) == *sp => {}, other => return fail(format!("{:?}: ring-closure token {} is at {:?}, the trace says {:?}", s, k, sp, other)) }
+                }
+                if trace.rnum(rnum_spans.len()).is_some() { return fail(format!("{:?}: the trace has a ring-closure token past the last one", s)) }
+                // bonds, in both directions, when the graph builds
+                if let Ok((atoms, _, cursors)) = den {
+                    for ((a, bb), cur) in cursors.iter() {
+                        if trace.bond(*a, *bb) != Some(*cur) { return fail(format!("{:?}: bond {}->{} is written at cursor {}, the trace says {:?}", s, a, bb, cur, trace.bond(*a, *bb))) }
+                    }
+                    let n = atoms.len();
+                    if n <= 12 { for a in 0..n + 1 { for bb in 0..n + 1 {
+                        if trace.bond(a, bb).is_some() && !cursors.iter().any(|x| x.0 == (a, bb)) { return fail(format!("{:?}: the trace reports a cursor for the non-existent bond {}->{}", s, a, bb)) }
+                    } } }
+                }
+                "OK".to_string()
             }
             _ => "SKIP".to_string(),
         }
